@@ -3,6 +3,7 @@ package main
 import (
 	"encoding/json"
 	"fmt"
+	"strings"
 
 	"verifharness/enum"
 	"verifharness/model"
@@ -125,6 +126,62 @@ func init() {
 				}
 				c01One(c, d, names, c01Spellings[1], fmtTuples[1])
 			}
+		}
+		// Part 1c: size families (thresholds in depth, number of roots, name length): chains of depth 1..D with and
+		// without a sibling at every level, R flat roots for every R, long names
+		maxD, maxR := 40, 70
+		if c.Thorough() {
+			maxD, maxR = 120, 300
+		}
+		c.Bound("chain_depth", fmt.Sprint(maxD))
+		c.Bound("flat_roots", fmt.Sprint(maxR))
+		for depth := 1; depth <= maxD && !c.Expired(); depth++ {
+			if !c.Take() {
+				continue
+			}
+			var d1, d2 []int
+			var n1, n2 []string
+			for l := 1; l <= depth; l++ {
+				d1 = append(d1, l)
+				n1 = append(n1, fmt.Sprintf("n%d", l))
+				d2 = append(d2, l)
+				n2 = append(n2, fmt.Sprintf("n%d", l))
+			}
+			for l := depth; l >= 2; l-- { // a trailing sibling at every level on the way back
+				d2 = append(d2, l)
+				n2 = append(n2, fmt.Sprintf("s%d", l))
+			}
+			c.StateN(2)
+			c.Inc("size_family_cases")
+			for _, fi := range []int{0, 1, 6} {
+				c01One(c, d1, n1, c01Spellings[0], fmtTuples[fi])
+				c01One(c, d2, n2, c01Spellings[1], fmtTuples[fi])
+			}
+		}
+		for r := 1; r <= maxR && !c.Expired(); r++ {
+			if !c.Take() {
+				continue
+			}
+			var d []int
+			var nm []string
+			for i := 0; i < r; i++ {
+				d = append(d, 1, 2)
+				nm = append(nm, fmt.Sprintf("root%03d", i), "kid")
+			}
+			c.StateN(1)
+			c.Inc("size_family_cases")
+			c01One(c, d, nm, c01Spellings[0], fmtTuples[0])
+			c01One(c, d, nm, c01Spellings[2], fmtTuples[6])
+		}
+		for _, ln := range []int{255, 256, 1000, 4095, 4096, 4097, 8192, 60000} {
+			if !c.Take() {
+				continue
+			}
+			long := strings.Repeat("x", ln)
+			c.StateN(1)
+			c.Inc("size_family_cases")
+			c01One(c, []int{1, 2, 3, 2}, []string{"r", long, "k", long + "2"}, c01Spellings[0], fmtTuples[0])
+			c01One(c, []int{1, 2}, []string{long, "k"}, c01Spellings[1], fmtTuples[1])
 		}
 		// Part 2: hostile one-line names (bullet spellings only: a heading trims blanks)
 		for n := 1; n <= maxH && !c.Expired(); n++ {
